@@ -49,7 +49,7 @@ def wrap(kind, line):
 
 
 build_case = st.tuples(
-    V.holder(), V.opt_year(), st.sampled_from(sorted(V.PREFIXES)), st.sampled_from(WRAPS),
+    V.holder(markers=True), V.opt_year(), st.sampled_from(sorted(V.PREFIXES)), st.sampled_from(WRAPS),
     st.booleans(),  # already a notice?
     st.sampled_from(sorted(V.PREFIXES)),
 )
@@ -88,9 +88,10 @@ def check_build(ctx, case):
     except ImportError:
         ctx.label("reader-groups-unavailable")
         return
-    for pat in _COPYRIGHT_PATTERNS:
-        m = pat.search(line)
-        if m:
+    # the notice starts at the leftmost marker of the line (a holder may contain such a word itself)
+    found = [m for m in (pat.search(line) for pat in _COPYRIGHT_PATTERNS) if m]
+    for m in sorted(found, key=lambda m: m.start())[:1]:
+        if True:
             g = m.groupdict()
             got = (g["prefix"], g["year"], g["statement"])
             if got != (exp_prefix, exp_year, holder):
@@ -102,7 +103,7 @@ def check_build(ctx, case):
 
 @st.composite
 def merge_case(draw):
-    holders = draw(st.lists(V.safe_holder(), min_size=1, max_size=3, unique=True))
+    holders = draw(st.lists(V.safe_holder(markers=True), min_size=1, max_size=3, unique=True))
     n = draw(st.integers(1, 8))
     items = []
     for _ in range(n):
@@ -167,13 +168,13 @@ def check_merge(ctx, items):
 
 @st.composite
 def cli_case(draw):
-    pool = draw(st.lists(V.safe_holder(), min_size=1, max_size=2, unique=True))
+    pool = draw(st.lists(V.safe_holder(markers=True), min_size=1, max_size=2, unique=True))
     existing = draw(st.lists(st.tuples(st.sampled_from(sorted(V.PREFIXES)), V.opt_year(), st.sampled_from(pool)), max_size=4))
     mode = draw(st.sampled_from(["new", "new", "same-holder", "repeat-line", "licence-only"]))
     years = draw(st.lists(st.integers(1980, 2030).map(str), max_size=3))
     exclude = draw(st.booleans()) if not years else False
     prefix = draw(st.one_of(st.none(), st.sampled_from(sorted(V.PREFIXES))))
-    new_holders = draw(st.lists(V.safe_holder(), min_size=1, max_size=2, unique=True))
+    new_holders = draw(st.lists(V.safe_holder(markers=True), min_size=1, max_size=2, unique=True))
     if existing and mode == "same-holder":
         new_holders[0] = existing[0][2]
     elif existing and mode == "repeat-line":
